@@ -137,8 +137,11 @@ func gen(r *vh.Rand) string {
 		return genEh(r)
 	case 15, 16, 17, 18, 19, 20:
 		return genRw(r)
-	case 21, 22:
-		return genLh(r)
+	case 21:
+		// reload histories go through files and the real loaders (about 80 ms each): few in the quick tier
+		if vh.Thorough || r.Chance(1, 2) {
+			return genLh(r)
+		}
 	}
 	var k x.Kase
 	x.GenCfg(r, &k)
